@@ -5,7 +5,9 @@ preservation by every step of every thread (layer 2 of DESIGN §5 "Core D").
 * `Glob`  : cursors, gate, the cells between the cursors hold the stream, the
             consumer's obtained bytes are the stream prefix;
 * `PInv`  : what the producer thread knows at each program counter (its
-            reservation lies below `gate + size`, the cells it has written);
+            reservation lies below `cseq + size` — it knows a lower bound of the
+            consumer cursor: the gate, or the cursor `ReadFrom` has just loaded —,
+            the cells it has written);
 * `CInv`  : what the consumer thread knows (its window lies below `pseq`, the
             bytes it has read are the stream).
 Each thread's invariant only mentions shared data the *other* threads change
@@ -49,26 +51,38 @@ structure Glob (cfg : Cfg) (base : Nat) (c : Core) : Prop where
 def Filled (cfg : Cfg) (buf : Array UInt8) (pos k : Nat) : Prop :=
   ∀ i, i < k → rd buf (cfg.idx (pos + i)) = cfg.src (pos + i)
 
-/-- a `WriteCommit(n)` in progress commits only filled bytes -/
-def wcOK (th : Th) (n : Nat) : Prop := ∀ m, th.cur = some (.wcommit m) → n ≤ th.filled
+/-- a `WriteCommit(n)` in progress (called by the thread program or by `ReadFrom`) commits only
+filled bytes; the `waitForWriteSpace` at the head of `ReadFrom`'s loop asks for exactly one byte -/
+def wcOK (th : Th) (n : Nat) : Prop :=
+  (∀ m, th.cur = some (.wcommit m) → n ≤ th.filled) ∧
+  (∀ tot ms, th.cur = some (.rfcommit tot ms) → n ≤ th.filled) ∧
+  (∀ tot ms, th.cur = some (.rfrom tot ms) → n = 1)
+
+/-- the `WriteCommit` called by `ReadFrom` is not in the wait loop of `waitForWriteSpace`: its space was
+free when `ReadFrom` looked (the consumer cursor only moves forward) -/
+def noRfc (th : Th) : Prop := ∀ tot ms, th.cur ≠ some (.rfcommit tot ms)
 
 def pcP (cfg : Cfg) (c : Core) (th : Th) : Prop :=
   match th.pc with
   | .s30 n | .s31 n => wcOK th n
-  | .w40 _ => ∀ m, th.cur ≠ some (.wcommit m)
-  | .s32 n ppos | .s33 n ppos | .s34 n ppos | .s35 n ppos | .s36 n ppos | .s36w n ppos | .s37 n ppos =>
-    ppos = c.pseq ∧ wcOK th n
+  | .w40 n => th.cur = some (.write n)
+  | .s32 n ppos | .s33 n ppos | .s37 n ppos => ppos = c.pseq ∧ wcOK th n
+  | .s34 n ppos | .s35 n ppos | .s36 n ppos | .s36w n ppos => ppos = c.pseq ∧ wcOK th n ∧ noRfc th
   | .s38 n ppos cpos => ppos = c.pseq ∧ ppos + n ≤ cpos + cfg.size ∧ cpos ≤ c.cseq ∧ c.gate ≤ cpos ∧ wcOK th n
-  | .w41c n ppos j => ppos = c.pseq ∧ ppos + n ≤ c.gate + cfg.size ∧ j ≤ n ∧ Filled cfg c.buf ppos j
-  | .w42 n ppos => ppos = c.pseq ∧ ppos + n ≤ c.gate + cfg.size ∧ Filled cfg c.buf ppos n
+  | .w41c n ppos j => ppos = c.pseq ∧ ppos + n ≤ c.cseq + cfg.size ∧ j ≤ n ∧ Filled cfg c.buf ppos j
+  | .w42 n ppos => ppos = c.pseq ∧ ppos + n ≤ c.cseq + cfg.size ∧ Filled cfg c.buf ppos n
   | .c50 n ppos => ppos = c.pseq ∧ n ≤ th.filled
-  | .f0 start len j => start = c.pseq ∧ start + len ≤ c.gate + cfg.size ∧ j ≤ len ∧ Filled cfg c.buf start j ∧ th.filled = 0
+  | .f0 start len j => start = c.pseq ∧ start + len ≤ c.cseq + cfg.size ∧ j ≤ len ∧ Filled cfg c.buf start j ∧ th.filled = 0
+  | .g112 _ _ ppos => ppos = c.pseq ∧ ppos + 1 ≤ c.cseq + cfg.size
+  | .g111 _ _ start len => start = c.pseq ∧ start + len ≤ c.cseq + cfg.size
+  | .g111c _ _ start n j => start = c.pseq ∧ start + n ≤ c.cseq + cfg.size ∧ j ≤ n ∧ Filled cfg c.buf start j
+  | .g111r _ _ n => Filled cfg c.buf c.pseq n ∧ c.pseq + n ≤ c.cseq + cfg.size
   | _ => True
 
 structure PInv (cfg : Cfg) (c : Core) (th : Th) : Prop where
   pcinv : pcP cfg c th
-  slice : ∀ st len, th.slice = some (st, len) → st = c.pseq ∧ st + len ≤ c.gate + cfg.size
-  fill : Filled cfg c.buf c.pseq th.filled ∧ (0 < th.filled → c.pseq + th.filled ≤ c.gate + cfg.size)
+  slice : ∀ st len, th.slice = some (st, len) → st = c.pseq ∧ st + len ≤ c.cseq + cfg.size
+  fill : Filled cfg c.buf c.pseq th.filled ∧ (0 < th.filled → c.pseq + th.filled ≤ c.cseq + cfg.size)
 
 def pcC (cfg : Cfg) (c : Core) (th : Th) : Prop :=
   match th.pc with
@@ -110,12 +124,19 @@ theorem PInv_stable (cfg : Cfg) (c c' : Core) (th : Th) (h : PInv cfg c th)
   simp only at hb hp hg hc
   subst hb hp hg
   obtain ⟨h1, h2, h3⟩ := h
-  refine ⟨?_, h2, h3⟩
-  unfold pcP at h1 ⊢
-  split at h1
-  all_goals (first
-    | exact h1
-    | (obtain ⟨a, b, c, d, e⟩ := h1; exact ⟨a, b, Nat.le_trans c hc, d, e⟩))
+  refine ⟨?_, ?_, ⟨h3.1, fun h => Nat.le_trans (h3.2 h) (Nat.add_le_add_right hc _)⟩⟩
+  · unfold pcP at h1 ⊢
+    split at h1
+    all_goals (first
+      | exact h1
+      | (obtain ⟨a, b, c, d, e⟩ := h1; exact ⟨a, b, Nat.le_trans c hc, d, e⟩)
+      | (obtain ⟨a, b, c, d, e⟩ := h1; exact ⟨a, Nat.le_trans b (Nat.add_le_add_right hc _), c, d, e⟩)
+      | (obtain ⟨a, b, c, d⟩ := h1; exact ⟨a, Nat.le_trans b (Nat.add_le_add_right hc _), c, d⟩)
+      | (obtain ⟨a, b, c⟩ := h1; exact ⟨a, Nat.le_trans b (Nat.add_le_add_right hc _), c⟩)
+      | (obtain ⟨a, b⟩ := h1; exact ⟨a, Nat.le_trans b (Nat.add_le_add_right hc _)⟩))
+  · intro st len e
+    obtain ⟨a, b⟩ := h2 st len e
+    exact ⟨a, Nat.le_trans b (Nat.add_le_add_right hc _)⟩
 
 theorem CInv_stable (cfg : Cfg) (c c' : Core) (th : Th) (h : CInv cfg c th)
     (hc : c'.cseq = c.cseq) (hp : c.pseq ≤ c'.pseq) : CInv cfg c' th := by
@@ -144,7 +165,7 @@ theorem CInv_stable (cfg : Cfg) (c c' : Core) (th : Th) (h : CInv cfg c th)
 
 /-- the program counters whose step changes the core -/
 def dataPc : Pc → Bool
-  | .w41c _ _ _ | .w42 _ _ | .c50 _ _ | .f0 _ _ _ | .s38 _ _ _ | .r64 _ _ _ | .k102 _ _ => true
+  | .w41c _ _ _ | .w42 _ _ | .c50 _ _ | .f0 _ _ _ | .s38 _ _ _ | .g111c _ _ _ _ _ | .r64 _ _ _ | .k102 _ _ => true
   | _ => false
 
 theorem core_frame (cfg : Cfg) (me : Tid) (sh sh' : Sh) (th th' : Th)
@@ -200,9 +221,9 @@ theorem Filled_zero (cfg : Cfg) (buf : Array UInt8) (pos : Nat) : Filled cfg buf
 
 /-- return of `waitForWriteSpace` into its caller, given the reservation it established -/
 theorem pInv_wfsOk (cfg : Cfg) (c : Core) (th : Th) (ppos n : Nat)
-    (h1 : ppos = c.pseq) (h2 : ppos + n ≤ c.gate + cfg.size) (h3 : wcOK th n)
-    (hsl : ∀ st len, th.slice = some (st, len) → st = c.pseq ∧ st + len ≤ c.gate + cfg.size)
-    (hf : Filled cfg c.buf c.pseq th.filled ∧ (0 < th.filled → c.pseq + th.filled ≤ c.gate + cfg.size)) :
+    (h1 : ppos = c.pseq) (h2 : ppos + n ≤ c.cseq + cfg.size) (h3 : wcOK th n)
+    (hsl : ∀ st len, th.slice = some (st, len) → st = c.pseq ∧ st + len ≤ c.cseq + cfg.size)
+    (hf : Filled cfg c.buf c.pseq th.filled ∧ (0 < th.filled → c.pseq + th.filled ≤ c.cseq + cfg.size)) :
     PInv cfg c (wfsOk cfg th ppos n) := by
   unfold wfsOk
   dsimp only
@@ -220,32 +241,99 @@ theorem pInv_wfsOk (cfg : Cfg) (c : Core) (th : Th) (ppos n : Nat)
       obtain ⟨rfl, rfl⟩ := e
       exact ⟨h1, h2⟩
   · rename_i m hm
-    exact ⟨⟨h1, h3 _ hm⟩, hsl, hf⟩
+    exact ⟨⟨h1, h3.1 _ hm⟩, hsl, hf⟩
+  · rename_i tot ms hm
+    have := h3.2.2 _ _ hm
+    exact ⟨⟨h1, by omega⟩, hsl, hf⟩
+  · rename_i tot ms hm
+    exact ⟨⟨h1, h3.2.1 _ _ hm⟩, hsl, hf⟩
   · exact ⟨trivial, hsl, hf⟩
+
+theorem pInv_rfExit (cfg : Cfg) (c : Core) (th : Th) (n : Nat) (e : Err) : PInv cfg c (rfExit th n e) :=
+  ⟨trivial, nofun, ⟨Filled_zero _ _ _, fun h => absurd h (Nat.lt_irrefl 0)⟩⟩
+
+theorem pInv_wfsErr (cfg : Cfg) (c : Core) (th : Th) (e : Err)
+    (hsl : ∀ st len, th.slice = some (st, len) → st = c.pseq ∧ st + len ≤ c.cseq + cfg.size)
+    (hf : Filled cfg c.buf c.pseq th.filled ∧ (0 < th.filled → c.pseq + th.filled ≤ c.cseq + cfg.size)) :
+    PInv cfg c (wfsErr th e) := by
+  unfold wfsErr
+  split
+  · exact pInv_rfExit cfg c th _ e
+  · exact pInv_rfExit cfg c th _ e
+  · exact ⟨trivial, hsl, hf⟩
+
+theorem pInv_enterWfs (cfg : Cfg) (c : Core) (th : Th) (n : Nat) (hw : wcOK th n)
+    (hsl : ∀ st len, th.slice = some (st, len) → st = c.pseq ∧ st + len ≤ c.cseq + cfg.size)
+    (hf : Filled cfg c.buf c.pseq th.filled ∧ (0 < th.filled → c.pseq + th.filled ≤ c.cseq + cfg.size)) :
+    PInv cfg c (enterWfs cfg th n) := by
+  unfold enterWfs
+  split
+  · exact pInv_wfsErr cfg c th _ hsl hf
+  · exact ⟨hw, hsl, hf⟩
+
+theorem pInv_wcRet (cfg : Cfg) (c : Core) (th : Th) (n : Nat)
+    (hsl : ∀ st len, th.slice = some (st, len) → st = c.pseq ∧ st + len ≤ c.cseq + cfg.size)
+    (hf : Filled cfg c.buf c.pseq th.filled ∧ (0 < th.filled → c.pseq + th.filled ≤ c.cseq + cfg.size)) :
+    PInv cfg c (wcRet th n) := by
+  unfold wcRet
+  split <;> exact ⟨trivial, hsl, hf⟩
+
+theorem pInv_closeRet (cfg : Cfg) (c : Core) (th : Th)
+    (hsl : ∀ st len, th.slice = some (st, len) → st = c.pseq ∧ st + len ≤ c.cseq + cfg.size)
+    (hf : Filled cfg c.buf c.pseq th.filled ∧ (0 < th.filled → c.pseq + th.filled ≤ c.cseq + cfg.size)) :
+    PInv cfg c (closeRet th) := by
+  unfold closeRet
+  split <;> exact ⟨trivial, hsl, hf⟩
+
+theorem wcOK_of_cur (th : Th) (n : Nat) (call : Call) (hcur : th.cur = some call)
+    (h1 : ∀ m, call ≠ .wcommit m) (h2 : ∀ tot ms, call ≠ .rfcommit tot ms) (h3 : ∀ tot ms, call ≠ .rfrom tot ms) :
+    wcOK th n := by
+  refine ⟨fun m h => ?_, fun tot ms h => ?_, fun tot ms h => ?_⟩
+  · rw [hcur] at h; cases h; exact absurd rfl (h1 m)
+  · rw [hcur] at h; cases h; exact absurd rfl (h2 tot ms)
+  · rw [hcur] at h; cases h; exact absurd rfl (h3 tot ms)
 
 theorem pInv_startCall (cfg : Cfg) (c : Core) (th : Th) (call : Call) (hi : PInv cfg c th)
     (hcur : th.cur = some call) (ha : Tid.p.allowed call = true) : PInv cfg c (startCall cfg th call) := by
   obtain ⟨hpc, hsl, hf⟩ := hi
-  cases call <;> simp only [startCall, enterWfs, wfsErr, Th.goto, Th.ret]
+  have hz : Filled cfg c.buf c.pseq 0 ∧ (0 < 0 → c.pseq + 0 ≤ c.cseq + cfg.size) :=
+    ⟨Filled_zero _ _ _, fun h => absurd h (Nat.lt_irrefl 0)⟩
+  cases call <;> simp only [startCall, Th.goto, Th.ret]
   case write n =>
-    exact ⟨by simp [pcP, hcur], by simp, ⟨Filled_zero _ _ _, by simp⟩⟩
+    exact ⟨hcur, by simp, hz⟩
   case wwait n =>
-    split
-    · exact ⟨trivial, by simp, ⟨Filled_zero _ _ _, by simp⟩⟩
-    · exact ⟨by simp [pcP, wcOK, hcur], by simp, ⟨Filled_zero _ _ _, by simp⟩⟩
+    exact pInv_enterWfs cfg c _ n (wcOK_of_cur _ n _ hcur nofun nofun nofun) nofun hz
   case wcommit n =>
-    split
-    · exact ⟨trivial, by simp, hf⟩
-    · exact ⟨by simp only [pcP, wcOK]; intro m _; exact Nat.min_le_right _ _, by simp, hf⟩
+    refine pInv_enterWfs cfg c _ _ ?_ nofun hf
+    refine ⟨fun m _ => Nat.min_le_right _ _, fun tot ms h => ?_, fun tot ms h => ?_⟩
+    · rw [hcur] at h; cases h
+    · rw [hcur] at h; cases h
   case wfill =>
     split
     · rename_i st len hsome
       obtain ⟨a, b⟩ := hsl st len hsome
-      exact ⟨⟨a, b, Nat.zero_le _, Filled_zero _ _ _, rfl⟩, hsl, ⟨Filled_zero _ _ _, by simp⟩⟩
+      exact ⟨⟨a, b, Nat.zero_le _, Filled_zero _ _ _, rfl⟩, hsl, hz⟩
     · exact ⟨trivial, hsl, hf⟩
+  case rfrom tot ms => exact ⟨trivial, nofun, hz⟩
+  case rfcommit tot ms => exact ⟨trivial, hsl, hf⟩
+  case rfret n e => exact ⟨trivial, hsl, hf⟩
   case close => exact ⟨trivial, hsl, hf⟩
   case len => exact ⟨trivial, hsl, hf⟩
   all_goals (simp [Tid.allowed, Call.isProducer] at ha)
+
+/-- `waitForWriteSpace(n)` found no space: then it is not the `WriteCommit` of `ReadFrom` (whose `n`
+bytes were free when `ReadFrom` loaded the consumer cursor) -/
+theorem noRfc_of_wait (cfg : Cfg) (base : Nat) (sh : Sh) (th : Th) (n ppos : Nat) (hg : Glob cfg base sh.core)
+    (h1 : ppos = sh.core.pseq) (hw : wcOK th n)
+    (hf : Filled cfg sh.core.buf sh.core.pseq th.filled ∧ (0 < th.filled → sh.core.pseq + th.filled ≤ sh.core.cseq + cfg.size))
+    (hfull : ppos + n > sh.cseq + cfg.size) : noRfc th := by
+  intro tot ms hcur
+  have hn := hw.2.1 tot ms hcur
+  have hpc := hg.pc
+  simp only [Sh.core] at h1 hf hpc
+  by_cases hz : th.filled = 0
+  · omega
+  · have := hf.2 (by omega); omega
 
 theorem prod_frame (cfg : Cfg) (base : Nat) (sh sh' : Sh) (th th' : Th)
     (hg : Glob cfg base sh.core) (hi : PInv cfg sh.core th) (hok : ThOK .p th)
@@ -272,33 +360,89 @@ theorem prod_frame (cfg : Cfg) (base : Nat) (sh sh' : Sh) (th th' : Th)
     · simp only [Option.some.injEq, Prod.mk.injEq] at hs
       obtain ⟨rfl, rfl⟩ := hs
       exact ⟨trivial, hsl, hf⟩
+  case s30 n =>
+    simp only [pcP] at hpc
+    tstep_norm
+    rcases hs with ⟨h1, rfl, rfl⟩ | ⟨h1, rfl, rfl⟩
+    · exact pInv_wfsErr cfg _ _ _ hsl hf
+    · exact ⟨hpc, hsl, hf⟩
   case s31 n =>
     simp only [pcP] at hpc
     tstep_norm
     rcases hs with ⟨h1, rfl, rfl⟩ | ⟨h1, rfl, rfl⟩
     · exact ⟨⟨rfl, hpc⟩, hsl, hf⟩
-    · exact pInv_wfsOk cfg _ _ _ _ rfl (by simp only [Sh.core]; omega) hpc hsl hf
+    · have := hg.gc
+      exact pInv_wfsOk cfg _ _ _ _ rfl (by simp only [Sh.core] at this ⊢; omega) hpc hsl hf
   case s33 n ppos =>
     simp only [pcP] at hpc
     tstep_norm
     rcases hs with ⟨h1, rfl, rfl⟩ | ⟨h1, rfl, rfl⟩
-    · exact ⟨hpc, hsl, hf⟩
+    · exact ⟨⟨hpc.1, hpc.2, noRfc_of_wait cfg base sh _ n ppos hg hpc.1 hpc.2 hf h1⟩, hsl, hf⟩
     · exact ⟨⟨hpc.1, by omega, Nat.le_refl _, hg.gc, hpc.2⟩, hsl, hf⟩
+  case s35 n ppos =>
+    tstep_norm
+    obtain ⟨rfl, rfl⟩ := hs
+    exact pInv_wfsErr cfg _ _ _ hsl hf
+  case s36w n ppos =>
+    simp only [pcP] at hpc
+    tstep_norm
+    obtain ⟨_, _, rfl, rfl⟩ := hs
+    exact ⟨⟨hpc.1, hpc.2.1⟩, hsl, hf⟩
   case s37 n ppos =>
     simp only [pcP] at hpc
     tstep_norm
     rcases hs with ⟨h1, rfl, rfl⟩ | ⟨h1, rfl, rfl⟩
-    · exact ⟨hpc, hsl, hf⟩
+    · exact ⟨⟨hpc.1, hpc.2, noRfc_of_wait cfg base sh _ n ppos hg hpc.1 hpc.2 hf h1⟩, hsl, hf⟩
     · exact ⟨⟨hpc.1, by omega, Nat.le_refl _, hg.gc, hpc.2⟩, hsl, hf⟩
   case w40 n =>
     simp only [pcP] at hpc
     tstep_norm
     rcases hs with ⟨h1, rfl, rfl⟩ | ⟨h1, rfl, rfl⟩
     · exact ⟨trivial, hsl, hf⟩
-    · simp only [enterWfs, wfsErr]
-      split
-      · exact ⟨trivial, hsl, hf⟩
-      · exact ⟨fun m hm => absurd hm (hpc m), hsl, hf⟩
+    · exact pInv_enterWfs cfg _ _ n (wcOK_of_cur _ n _ hpc nofun nofun nofun) hsl hf
+  case c53 n =>
+    tstep_norm
+    obtain ⟨rfl, rfl⟩ := hs
+    exact pInv_wcRet cfg _ _ n hsl hf
+  case x16 =>
+    tstep_norm
+    obtain ⟨rfl, rfl⟩ := hs
+    exact pInv_closeRet cfg _ _ hsl hf
+  case g110 tot ms =>
+    tstep_norm
+    rcases hs with ⟨h1, rfl, rfl⟩ | ⟨h1, rfl, rfl⟩
+    · exact pInv_rfExit cfg _ _ _ _
+    · refine pInv_enterWfs cfg _ _ 1 ⟨fun m h => ?_, fun t m h => ?_, fun _ _ _ => rfl⟩ hsl hf
+      · cases h
+      · cases h
+  case g112 tot ms ppos =>
+    simp only [pcP] at hpc
+    obtain ⟨e1, e2⟩ := hpc
+    tstep_norm
+    obtain ⟨rfl, rfl⟩ := hs
+    refine ⟨⟨e1, ?_⟩, hsl, hf⟩
+    have hcp := hg.cp
+    simp only [Sh.core] at e1 e2 hcp ⊢
+    have hm := Nat.min_le_right cfg.rblock (cfg.size - (ppos - sh.cseq))
+    split <;> omega
+  case g111 tot ms start len =>
+    simp only [pcP] at hpc
+    obtain ⟨e1, e2⟩ := hpc
+    tstep_norm
+    rcases hs with ⟨h1, rfl, rfl⟩ | ⟨h1, rfl, rfl⟩
+    · exact pInv_rfExit cfg _ _ _ _
+    · have hm := Nat.min_le_right (ms.headD 0) len
+      exact ⟨⟨e1, by omega, Nat.zero_le _, Filled_zero _ _ _⟩, hsl, hf⟩
+  case g111r tot ms n =>
+    simp only [pcP] at hpc
+    obtain ⟨e1, e2⟩ := hpc
+    tstep_norm
+    rcases hs with ⟨h1, rfl, rfl⟩ | ⟨h1, rfl, rfl⟩
+    · -- the reader has delivered n > 0 bytes: total += n, WriteCommit(n)
+      refine pInv_enterWfs cfg _ _ n ⟨fun m h => ?_, fun _ _ _ => Nat.le_refl _, fun t m h => ?_⟩ hsl ⟨e1, fun _ => e2⟩
+      · cases h
+      · cases h
+    · exact ⟨trivial, hsl, hf⟩
   case r62 => simp [pcRole, roleOK] at hr
   all_goals (first | (simp [dataPc] at hd; done) | (simp [pcRole, roleOK] at hr; done) | skip)
   all_goals tstep_norm
@@ -326,11 +470,7 @@ theorem prod_data (cfg : Cfg) (base : Nat) (sh sh' : Sh) (th th' : Th)
     obtain ⟨rfl, rfl⟩ := hs
     simp only [core_unlock]
     refine ⟨⟨hbs, hcp, hpcs, e3, hcells, hbase, hgot⟩, ?_, rfl, Nat.le_refl _, rfl⟩
-    refine pInv_wfsOk cfg _ _ _ _ e1 e2 e5 ?_ ?_
-    · intro st len e
-      obtain ⟨a, b⟩ := hsl st len e
-      exact ⟨a, Nat.le_trans b (by simp only [Sh.core]; omega)⟩
-    · exact ⟨hf.1, fun h => Nat.le_trans (hf.2 h) (by simp only [Sh.core]; omega)⟩
+    exact pInv_wfsOk cfg _ _ _ _ e1 (by simp only [Sh.core]; omega) e5 hsl hf
   case w41c n ppos j =>
     simp only [pcP] at hpc
     obtain ⟨e1, e2, e3, e4⟩ := hpc
@@ -345,7 +485,7 @@ theorem prod_data (cfg : Cfg) (base : Nat) (sh sh' : Sh) (th th' : Th)
       · refine ⟨?_, hf.2⟩
         by_cases hz : filled = 0
         · simp only [hz]; exact Filled_zero _ _ _
-        · have h2 : sh.pseq + filled ≤ sh.gate + cfg.size := hf.2 (by omega)
+        · have h2 : sh.pseq + filled ≤ sh.cseq + cfg.size := hf.2 (by omega)
           exact Filled_wr cfg sh.buf sh.pseq filled (ppos + j) hbs (by omega) (by omega) (by omega) hf.1
     · have : j = n := by omega
       subst this
@@ -375,7 +515,7 @@ theorem prod_data (cfg : Cfg) (base : Nat) (sh sh' : Sh) (th th' : Th)
       by_cases hz : filled = 0
       · have : n = 0 := by omega
         omega
-      · have h2 : sh.pseq + filled ≤ sh.gate + cfg.size := hf.2 (by omega)
+      · have h2 : sh.pseq + filled ≤ sh.cseq + cfg.size := hf.2 (by omega)
         omega
     have hle : sh.pseq ≤ ppos + n := by omega
     refine ⟨⟨hbs, Nat.le_trans hcp hle, ?_, hgc, ?_, hbase, hgot⟩,
@@ -407,7 +547,30 @@ theorem prod_data (cfg : Cfg) (base : Nat) (sh sh' : Sh) (th th' : Th)
         ⟨trivial, hsl, ⟨?_, fun _ => ?_⟩⟩, rfl, Nat.le_refl _, rfl⟩
       · show Filled cfg sh.buf sh.pseq j
         rw [← e1]; exact e4
-      · show sh.pseq + j ≤ sh.gate + cfg.size
+      · show sh.pseq + j ≤ sh.cseq + cfg.size
+        omega
+  case g111c tot ms start n j =>
+    simp only [pcP] at hpc
+    obtain ⟨e1, e2, e3, e4⟩ := hpc
+    tstep_norm
+    rcases hs with ⟨h1, rfl, rfl⟩ | ⟨h1, rfl, rfl⟩
+    · have hn : n ≤ cfg.size := by omega
+      refine ⟨⟨?_, hcp, hpcs, hgc, ?_, hbase, hgot⟩, ⟨?_, hsl, ?_⟩, rfl, Nat.le_refl _, rfl⟩
+      · show (wr sh.buf _ _).size = cfg.size
+        rw [wr_size]; exact hbs
+      · exact cells_wr cfg sh.buf sh.cseq sh.pseq (start + j) _ hcells (by omega) (by omega)
+      · exact ⟨e1, e2, by omega, Filled_wr_succ cfg sh.buf start j hbs (by omega) e4⟩
+      · refine ⟨?_, hf.2⟩
+        by_cases hz : filled = 0
+        · simp only [hz]; exact Filled_zero _ _ _
+        · have h2 : sh.pseq + filled ≤ sh.cseq + cfg.size := hf.2 (by omega)
+          exact Filled_wr cfg sh.buf sh.pseq filled (start + j) hbs (by omega) (by omega) (by omega) hf.1
+    · have : j = n := by omega
+      subst this
+      refine ⟨⟨hbs, hcp, hpcs, hgc, hcells, hbase, hgot⟩, ⟨⟨?_, ?_⟩, hsl, hf⟩, rfl, Nat.le_refl _, rfl⟩
+      · show Filled cfg sh.buf sh.pseq j
+        rw [← e1]; exact e4
+      · show sh.pseq + j ≤ sh.cseq + cfg.size
         omega
   all_goals (first | (simp [dataPc] at hd; done) | (simp [pcRole, roleOK] at hr; done))
 
@@ -591,6 +754,11 @@ theorem cons_frame (cfg : Cfg) (base : Nat) (sh sh' : Sh) (th th' : Th)
         rw [e4, segment_length, e1]
       · show sh.cseq + acc.reverse.length ≤ sh.pseq
         rw [e4, segment_length, ← e1]; exact e2
+  case x16 =>
+    tstep_norm
+    obtain ⟨rfl, rfl⟩ := hs
+    unfold closeRet
+    split <;> exact ⟨trivial, hv, hpd⟩
   all_goals (first | (simp [dataPc] at hd; done) | (simp [pcRole, roleOK] at hr; done) | skip)
   all_goals tstep_norm
   all_goals tstep_elim
@@ -658,6 +826,34 @@ theorem cons_data (cfg : Cfg) (base : Nat) (sh sh' : Sh) (th th' : Th)
     · show sh.cseq ≤ sh.cseq + n
       omega
   all_goals (first | (simp [dataPc] at hd; done) | (simp [pcRole, roleOK] at hr; done))
+
+/-- the slice `ReadFrom` offers its reader (mark 112): at least one byte — so a reader is never handed
+an empty slice, which it would answer with `(0, nil)` for ever —, at most one read block, not past the
+end of the ring, and inside the free part of the ring as of the consumer cursor just loaded -/
+theorem readfrom_len_arith (sz rb h b : Nat) (hrb : 0 < rb) (hb : b < sz) (h2 : h + 1 ≤ sz) :
+    let c := min rb (sz - h)
+    let len := if b + c > sz then sz - b else c
+    1 ≤ len ∧ len ≤ rb ∧ b + len ≤ sz ∧ h + len ≤ sz := by
+  intro c len
+  have hm1 : c ≤ rb := Nat.min_le_left _ _
+  have hm2 : c ≤ sz - h := Nat.min_le_right _ _
+  have hm3 : 1 ≤ c := by show 1 ≤ min rb (sz - h); rw [Nat.le_min]; omega
+  show 1 ≤ (if b + c > sz then sz - b else c) ∧ (if b + c > sz then sz - b else c) ≤ rb ∧
+    b + (if b + c > sz then sz - b else c) ≤ sz ∧ h + (if b + c > sz then sz - b else c) ≤ sz
+  generalize c = c' at hm1 hm2 hm3
+  split <;> omega
+
+theorem readfrom_len (cfg : Cfg) (cseq ppos : Nat) (hrb : 0 < cfg.rblock) (h1 : cseq ≤ ppos)
+    (h2 : ppos + 1 ≤ cseq + cfg.size) :
+    let len := if cfg.idx ppos + min cfg.rblock (cfg.size - (ppos - cseq)) > cfg.size then cfg.size - cfg.idx ppos
+               else min cfg.rblock (cfg.size - (ppos - cseq))
+    1 ≤ len ∧ len ≤ cfg.rblock ∧ cfg.idx ppos + len ≤ cfg.size ∧ ppos + len ≤ cseq + cfg.size := by
+  intro len
+  obtain ⟨a, b, c, d⟩ := readfrom_len_arith cfg.size cfg.rblock (ppos - cseq) (cfg.idx ppos) hrb (idx_lt cfg ppos) (by omega)
+  refine ⟨a, b, c, ?_⟩
+  have : ppos = cseq + (ppos - cseq) := by omega
+  have d' : ppos - cseq + len ≤ cfg.size := d
+  omega
 
 /-! ### the invariant of the whole system -/
 
@@ -863,6 +1059,10 @@ theorem startCall_res (cfg : Cfg) (base : Nat) (c : Core) (th : Th) (call : Call
     | (simp only [Option.some.injEq] at hr; subst hr; exact resOK_nil cfg _ _ rfl (Nat.zero_le _))
     | (simp only [h0] at hr; cases hr; done))
 
+theorem closeRet_res (th : Th) (r : Res) (h : (closeRet th).res = some r) : r.data = [] ∧ r.off = 0 := by
+  unfold closeRet at h
+  split at h <;> (simp only [Th.ret, Option.some.injEq] at h; subst h; exact ⟨rfl, rfl⟩)
+
 /-- **every result the consumer is handed is the stream at its offset** -/
 theorem cons_res (cfg : Cfg) (base : Nat) (sh sh' : Sh) (th th' : Th)
     (hg : Glob cfg base sh.core) (hi : CInv cfg sh.core th) (hok : ThOK .c th)
@@ -949,10 +1149,15 @@ theorem cons_res (cfg : Cfg) (base : Nat) (sh sh' : Sh) (th th' : Th)
         rw [e4, segment_length]; exact e2
       · show acc.reverse = segment cfg.src cpos acc.reverse.length
         rw [e4, segment_length]
+  case x16 =>
+    tstep_norm
+    obtain ⟨rfl, rfl⟩ := hs
+    obtain ⟨hd, ho⟩ := closeRet_res _ r hr
+    exact resOK_nil cfg _ _ hd (by rw [ho]; exact Nat.zero_le _)
   all_goals (first | (simp [pcRole, roleOK] at hrl; done) | skip)
   all_goals tstep_norm
   all_goals tstep_elim
-  all_goals (simp only [Th.goto, Th.ret, wfsErr, Option.some.injEq] at hr)
+  all_goals (simp only [Th.goto, Th.ret, Option.some.injEq] at hr)
   all_goals (first
     | (subst hr; exact resOK_nil cfg _ _ rfl (Nat.zero_le _))
     | (cases hr; done))
